@@ -169,8 +169,9 @@ impl RadixSort {
     }
 
     fn sort_u32_sequential(&self, data: &mut [u32]) -> Result<()> {
-        if data.len() <= self.config.use_counting_sort_threshold {
-            self.counting_sort_u32(data);
+        // Counting sort needs one counter per possible value; it only pays off (and only
+        // fits in memory) when the value range is small.
+        if data.len() <= self.config.use_counting_sort_threshold && self.counting_sort_u32(data) {
             return Ok(());
         }
 
@@ -333,13 +334,22 @@ impl RadixSort {
         Ok(())
     }
 
-    fn counting_sort_u32(&self, data: &mut [u32]) {
+    /// Counting sort for small value ranges. Returns `false` (data untouched) when the
+    /// largest value would need more than `COUNTING_SORT_MAX_RANGE` counters, so that the
+    /// caller falls back to the radix passes instead of allocating `(max + 1)` counters
+    /// (32 GiB for `u32::MAX`).
+    fn counting_sort_u32(&self, data: &mut [u32]) -> bool {
+        const COUNTING_SORT_MAX_RANGE: usize = 1 << 16;
+
         if data.is_empty() {
-            return;
+            return true;
         }
 
         // SAFETY: is_empty() check above guarantees iterator has at least one element
         let max_val = *data.iter().max().unwrap() as usize;
+        if max_val >= COUNTING_SORT_MAX_RANGE {
+            return false;
+        }
         let mut counts = vec![0usize; max_val + 1];
 
         // Count occurrences
@@ -355,6 +365,7 @@ impl RadixSort {
                 index += 1;
             }
         }
+        true
     }
 
     fn sort_bytes_msd(&self, data: &mut Vec<Vec<u8>>, depth: usize) -> Result<()> {
